@@ -46,8 +46,18 @@ DESTS = ["m.data", "m.v2.data", "sub/dir/w.bin", "weights", "a.b.c.bin"]
 STEMS = ["model.onnx", "my.model.v1.onnx", "net"]
 
 
+PHASES = ["main", "inplace"]
+PHASE_WEIGHTS = {"main": 1.0, "inplace": 0.1}
+
+
 def strategy(tier, phase):
     from hypothesis import strategies as st
+
+    if phase == "inplace":
+        # a sharded model is loaded back and saved again over itself with a shard limit that keeps the NUMBER of shards (and so
+        # the file names) but moves tensors between them: sizes (8u, 4u, 4u[, extra]), limits 12u+slack and 8u+slack
+        return st.fixed_dictionaries({"inplace": st.fixed_dictionaries({"u": st.sampled_from([8, 25, 100, 1000]), "backend": st.integers(0, 1), "swap": st.booleans(),
+                                                                         "extra": st.sampled_from([0, 0, 1, 3]), "threshold": st.sampled_from([0, 0, 16])})})
 
     spec = st.fixed_dictionaries({
         "g": st.sampled_from([0, 0, 1, 2, 3, 4]), "kind": st.integers(0, len(KINDS) - 1), "dtype": st.integers(0, len(DTYPES) - 1),
@@ -58,7 +68,7 @@ def strategy(tier, phase):
         "align_threshold": st.sampled_from([0, 64, 1000, 1048576]), "shard": st.sampled_from([None, None, 64, 300, 5000, 100000]),
         "workers": st.sampled_from([None, 1, 2, 4]), "inflight": st.sampled_from([1, 100, 4096, 2**26]),
         "backend": st.sampled_from([0, 0, 1]), "dest": st.integers(0, len(DESTS) - 1), "stem": st.integers(0, len(STEMS) - 1),
-        "fault": st.sampled_from([0, 0, 0, 0, 1, 2, 3]),
+        "fault": st.sampled_from([0, 0, 0, 0, 1, 2, 3]), "resave": st.sampled_from([None, None, 0, 1, 2, 3]),
     })
     return st.fixed_dictionaries({"inits": st.lists(spec, min_size=1, max_size=8), "opts": opts})
 
@@ -215,6 +225,12 @@ def all_graphs(model):
 
 
 def execute(case):
+    if "inplace" in case:
+        return _inplace_case(case["inplace"])
+    return _execute_main(case)
+
+
+def _execute_main(case):
     import onnx
 
     import onnx_ir as ir
@@ -400,6 +416,32 @@ def execute(case):
             classes.append("alignment_padded")
         if (opts["workers"] or 1) > 1:
             classes.append("workers>1")
+        # ---- history: the model that was loaded back is saved again over itself, with another shard limit ------------------
+        if opts.get("resave") is not None and not fails:
+            alt = [None, 64, 300, 5000][opts["resave"] % 4]
+            exc2 = None
+            try:
+                if backend == 0:
+                    ir.save(loaded, mpath, external_data=dest, size_threshold_bytes=opts["threshold"], max_shard_size_bytes=alt)
+                else:
+                    ir.save_safetensors(loaded, mpath, size_threshold_bytes=opts["threshold"], max_shard_size_bytes=alt)
+            except Exception as e:
+                exc2 = e
+            classes.append("saved_again_in_place:" + ("refused" if isinstance(exc2, FileExistsError) else "raised" if exc2 else "returned"))
+            if exc2 is not None and not isinstance(exc2, FileExistsError):
+                fails.append((f"save-again-in-place-raised/{bname}/{type(exc2).__name__}", f"saving the reloaded model over itself (shard limit {opts['shard']} -> {alt}) raised {type(exc2).__name__}: {exc2}"[:300]))
+            # whatever happened, the model on disk must still hold every initializer
+            try:
+                again = ir.load(mpath)
+                agraphs = all_graphs(again)
+                for (gi, name, code, shape, ref) in expected:
+                    v = [x for x in agraphs if x.name == gi][0].initializers.get(name)
+                    got = bytes(v.const_value.tobytes()) if v is not None and v.const_value is not None and len(ref) else b""
+                    if got != ref:
+                        fails.append((f"bytes-differ-after-saving-again-in-place/{bname}", f"{name}: after saving the reloaded model over itself (shard limit {opts['shard']} -> {alt}, {'raised ' + type(exc2).__name__ if exc2 else 'returned'}) the model on disk gives {got[:8].hex()} (len {len(got)}), expected {ref[:8].hex()} (len {len(ref)})"))
+                        break
+            except Exception as e:
+                fails.append((f"unreadable-after-saving-again-in-place/{bname}/{type(e).__name__}", f"after saving the reloaded model over itself (shard limit {opts['shard']} -> {alt}, {'raised ' + type(exc2).__name__ if exc2 else 'returned'}) the model on disk cannot be read: {type(e).__name__}: {e}"[:300]))
     except Exception as e:
         import traceback
 
@@ -407,6 +449,63 @@ def execute(case):
     finally:
         shutil.rmtree(workdir, ignore_errors=True)
     return dict(failures=_dedupe(fails), nontrivial=nontrivial, classes=classes)
+
+
+def _inplace_case(p):
+    """Save sharded, load, save again over itself with another distribution over equally many shards, load: every initializer
+    must still be there with its bytes.  (A refusal - FileExistsError - is fine, damage is not.)"""
+    import onnx_ir as ir
+
+    u, backend = p["u"], p["backend"] % 2
+    sizes = [8 * u, 4 * u, 4 * u] + [u] * p.get("extra", 0)
+    l1, l2 = 12 * u + u // 2, 8 * u + u // 2
+    if p.get("swap"):
+        l1, l2 = l2, l1
+    fails, classes = [], ["saved_again_in_place_same_shard_count", ["raw", "safetensors"][backend]]
+    wd = tempfile.mkdtemp(prefix="verif_c07_inplace_")
+    try:
+        refs = [bytes((i * 37 + 11 * j) & 0xFF for j in range(n)) for i, n in enumerate(sizes)]
+        vals = [ir.Value(name=f"w{i}", const_value=ir.Tensor(np.frombuffer(r, dtype=np.uint8).copy(), name=f"w{i}")) for i, r in enumerate(refs)]
+        x = ir.Value(name="x", type=ir.TensorType(ir.DataType.FLOAT), shape=ir.Shape([1]))
+        n = ir.Node("", "Identity", [x], num_outputs=1, name="n")
+        n.outputs[0].name = "y"
+        model = ir.Model(ir.Graph([x], [n.outputs[0]], nodes=[n], initializers=vals, name="main", opset_imports={"": 20}), ir_version=10)
+        mpath = os.path.join(wd, "m.onnx")
+
+        def save(m, limit):
+            if backend == 0:
+                ir.save(m, mpath, external_data="m.data", size_threshold_bytes=p["threshold"], max_shard_size_bytes=limit)
+            else:
+                ir.save_safetensors(m, mpath, size_threshold_bytes=p["threshold"], max_shard_size_bytes=limit)
+
+        save(model, l1)
+        files1 = sorted(os.listdir(wd))
+        loaded = ir.load(mpath)
+        exc = None
+        try:
+            save(loaded, l2)
+        except Exception as e:
+            exc = e
+        classes.append("refused" if isinstance(exc, FileExistsError) else "raised" if exc else "returned")
+        bname = ["raw", "safetensors"][backend]
+        what = f"sizes {sizes}, shard limit {l1} -> {l2}, files before {files1}: second save {'raised ' + type(exc).__name__ if exc else 'returned'}"
+        try:
+            again = ir.load(mpath)
+            for i, r in enumerate(refs):
+                v = again.graph.initializers.get(f"w{i}")
+                got = bytes(v.const_value.tobytes()) if v is not None and v.const_value is not None else None
+                if got != r:
+                    fails.append((f"initializer-lost-by-saving-again-in-place/{bname}", f"w{i}: {what}; the model on disk now gives {None if got is None else got[:8].hex()} instead of {r[:8].hex()}"[:400]))
+                    break
+        except Exception as e:
+            fails.append((f"initializer-lost-by-saving-again-in-place/{bname}", f"{what}; the model on disk cannot be read any more: {type(e).__name__}: {e}"[:400]))
+    except Exception as e:
+        import traceback
+
+        return dict(failures=[("harness-or-library-crash/" + type(e).__name__, traceback.format_exc()[-600:])], nontrivial=False, classes=["crash"])
+    finally:
+        shutil.rmtree(wd, ignore_errors=True)
+    return dict(failures=fails, nontrivial=True, classes=classes)
 
 
 def _dc(code):
